@@ -132,6 +132,7 @@ func (c *containerServer) sendLoop() {
 				return
 			}
 			err := c.socket.SendMsg(rep.Reply, rep.Msg)
+			verifTraceReply("c>", &rep.Reply)
 			for _, f := range rep.FileToClose {
 				f.Close()
 			}
@@ -154,6 +155,7 @@ func (c *containerServer) recvLoop() {
 			c.socketError(err)
 			return
 		}
+		verifTraceCmd("c<", &cmd)
 		c.recvCh <- recvCmd{
 			Cmd: cmd,
 			Msg: msg,
